@@ -71,7 +71,7 @@ def run(ctx):
             ctx.case((r.desc, str(C.jsonable_hist(r.hist))), nontrivial=nontriv,
                      sample=dict(start=r.desc, ops=[s["op"][0] + ":" + s["real"] for s in r.steps]), tags=tags)
             C.correspondence(ctx, r)
-            if judge(ctx, r):
+            if C.judge_and_shrink(ctx, r, judge):
                 twin(ctx, r, wd)
     finally:
         shutil.rmtree(wd, ignore_errors=True)
